@@ -24,7 +24,7 @@ def mk_cfg(ctx, variant="main"):
     acts = pm.ACTIONS if ctx.thorough else pm.ACTIONS[:7]
     if variant == "main":
         return pm.Cfg(seed=ctx.seed, slots=("A", "B") if ctx.thorough else ("A",), max_objs=2, actions=acts, clock=False,
-                      queries=("name", "ppid"), numeric=False, use_iter=True, max_denies=1, oneshot=True)
+                      queries=("name", "ppid"), numeric=False, use_iter=True, max_denies=1, oneshot=True, use_wait=True)
     if variant == "clock":
         # wall-clock steps and boot_time()/cpu_stats() between the death of a process and the recycling of its pid: the one
         # action is delivered to the right incarnation or refused
